@@ -37,7 +37,9 @@ func checkC01(c *Ctx, r *Report) {
 		set := e.Pkg + ".setNewRouteOperation"
 		// C01.a nothing annotated is dropped, nothing but hidden is skipped
 		ruleEach(c, r, "C01.a", gcs,
-			func(fi *FuncInfo) func(ast.Expr) bool { return w.rangeOverField(fi, "definitions.ControllerMetadata.Routes") }, "def.Routes",
+			func(fi *FuncInfo) func(ast.Expr) bool {
+				return w.rangeOverField(fi, "definitions.ControllerMetadata.Routes")
+			}, "def.Routes",
 			func(fi *FuncInfo) func(ast.Node) bool { return w.callPred(fi, set) }, "setNewRouteOperation",
 			func(fi *FuncInfo) []skipSpec {
 				hid := w.condCalls(fi, "generator/swagen/swagtool.IsHiddenAsset")
@@ -122,12 +124,14 @@ func checkC01(c *Ctx, r *Report) {
 	const cred = "(core/metadata.ControllerMeta).Reduce"
 	const rred = "(core/metadata.ReceiverMeta).Reduce"
 	ruleEach(c, r, "C01.a", cred,
-		func(fi *FuncInfo) func(ast.Expr) bool { return w.rangeOverField(fi, "core/metadata.ControllerMeta.Receivers") }, "m.Receivers",
-		func(fi *FuncInfo) func(ast.Node) bool { return w.appendTo(fi, identNamed("reducedReceivers")) }, "append(reducedReceivers)",
+		func(fi *FuncInfo) func(ast.Expr) bool {
+			return w.rangeOverField(fi, "core/metadata.ControllerMeta.Receivers")
+		}, "m.Receivers",
+		func(fi *FuncInfo) func(ast.Node) bool { return w.appendTo(fi, w.resultSlice(fi)) }, "append(reducedReceivers)",
 		nil, true, "every receiver of a controller is reduced and kept (only exit: error)")
 	ruleEach(c, r, "C01.a", "(*core/pipeline.GleecePipeline).reduceControllers",
 		func(fi *FuncInfo) func(ast.Expr) bool { return w.rangeOverType(fi, "[]core/metadata.ControllerMeta") }, "controllers",
-		func(fi *FuncInfo) func(ast.Node) bool { return w.appendTo(fi, identNamed("reducedControllers")) }, "append(reducedControllers)",
+		func(fi *FuncInfo) func(ast.Node) bool { return w.appendTo(fi, w.resultSlice(fi)) }, "append(reducedControllers)",
 		nil, true, "every controller is reduced and kept (only exit: error)")
 	ctrlMeta := w.lookupType("definitions", "ControllerMetadata")
 	routeMeta := w.lookupType("definitions", "RouteMetadata")
@@ -273,7 +277,11 @@ func checkC01(c *Ctx, r *Report) {
 					}
 					x, ok1 := be.X.(*ast.Ident)
 					y, ok2 := be.Y.(*ast.Ident)
-					return ok1 && ok2 && x.Name == "receiverMeta" && y.Name == "nil"
+					if !ok1 || !ok2 || y.Name != "nil" {
+						return false
+					}
+					t := fi.Pkg.TypesInfo.TypeOf(x)
+					return t != nil && short(types.TypeString(t, nil)) == "*core/metadata.ReceiverMeta"
 				}, Pol: true, Desc: "VisitMethod returned nil (not an API endpoint)"},
 			}
 		}, true,
